@@ -222,6 +222,10 @@ def coptFORM( dim, g, distObjs, corrMat, quadDeg=99, quadRange=8 ):
     
     rst = optimize.minimize( f, u, constraints=cons )
     beta = rst.fun
+    # The reliability index is negative when the origin of the standard normal 
+    # space ( the median point ) is already in the failure domain
+    if g( natafTrans.getX( np.zeros( dim ) )[ 0 ] ) < 0:
+        beta = -beta
     pf = stats.norm.cdf( -beta )
     uCoord = rst.x
     xCoord = natafTrans.getX( uCoord )[ 0 ]
